@@ -8,7 +8,9 @@ LEVEL_TEXT["C07"] = (
     "floor(len/_n)*_n samples, each equal to the direct filter's, and xcorr's padding / slice / flip gives sum_n a[n+lag] conj(b[n]) for every lag "
     "-(len b - 1)..len a - 1 -- both for EVERY transform pair satisfying the circular convolution / correlation theorem at the one length used, "
     "a hypothesis that is discharged for the exact DFT pair (Lib/C07Dft: orthogonality of roots of unity), i.e. what remains assumed is "
-    "fft = DFT / ifft = inverse DFT (C01/C02). Tie: correspondence of the four hand-written models with the library on tap counts 2..1024 x "
+    "fft = DFT / ifft = inverse DFT (C01/C02). "
+    "UNCONDITIONAL (Props/C07Total): the circular convolution / correlation hypotheses are proved for the library's own transform pair (C01's fftC_eq, C02's inverse) at every block length <= 2^31 -- circConv_lib, circCorr_lib, fftfilter_eq_fir_total_real/cmplx, fftfilter_two_calls_total, xcorr_eq_total_real/cmplx. "
+    "Tie: correspondence of the four hand-written models with the library on tap counts 2..1024 x "
     "5 coefficient kinds x 6 input kinds x single/multi-call framings; the driver runs the FftFilter / xcorr models with the transform pair "
     "instantiated by the C01 model of the library's own plans (Fft.fftC / Fft.ifftWith (Fft.fftC ..), literals regenerated) -- the very "
     "instantiation the `*_total_*` theorems are about -- and ALL eight tags (FirFilter, MAFilter, FftFilter, xcorr) are compared BIT-EXACT "
@@ -18,8 +20,8 @@ LEVEL_TEXT["C07"] = (
 )
 
 PROPS["C07"] = {
-    "gen": ["Cmplx"],
-    "lean_props": ["DspVerif.Props.C07", "DspVerif.Props.C07Total"],
+    "gen": ["Cmplx", "Slice", "StepsBase", "StepsArray", "StepsSlice", "StepsFir"],
+    "lean_props": ["DspVerif.Props.C07", "DspVerif.Props.C07Total", "DspVerif.Props.C07Gen"],
     "harness": [{"src": "c07.cpp", "cfg": "rel",
                  # fft*/xc*: the model runs the C01 model of the library's plans in the library's operation order -> worst observed
                  # deviation 0 (seeds 1,2,3 quick; seed 1 thorough); 100 x 0 = 0: compared bit for bit, no scale token
